@@ -87,6 +87,16 @@ Proof.
 Qed.
 Print Assumptions no_hooks_on_undo_redo_reads.
 
+(* ... nor on a load: in the model a load (into a fresh engine, OpReload; of the save slot into the same engine, OpLoad
+   in EngineCheck.run_slot) installs a core and empties the stacks - the log, i.e. what has run, is untouched, and the
+   hook registrations are those of the saved core (that the real load_state does the same is C05 and the tie) *)
+Theorem no_hooks_on_load : forall orc ctxkeys st e,
+  elog (fst (step orc ctxkeys st e OpReload)) = elog e /\
+  hooks (ec (fst (step orc ctxkeys st e OpReload))) = hooks (ec e) /\
+  fst (step orc ctxkeys st e OpSave) = e.
+Proof. intros. repeat split. Qed.
+Print Assumptions no_hooks_on_load.
+
 (* hooks change neither the position, the used one-time choices, @join progress nor the scope stack *)
 Theorem hooks_keep_position : forall orc ctxkeys st o s s' r,
   after_hooks orc ctxkeys st o s = (s', r) -> HFrame s s'.
